@@ -49,7 +49,11 @@ func ownInit() {
 	}
 }
 
+var ownSlotMu sync.Mutex
+
 func ownSlots(t reflect.Type) []ownSlot {
+	ownSlotMu.Lock()
+	defer ownSlotMu.Unlock()
 	if s, ok := ownSlotCache[t]; ok {
 		return s
 	}
@@ -112,7 +116,9 @@ type ownKid struct {
 func ownKids(pv reflect.Value, valInIface *int) []ownKid {
 	t := pv.Type().Elem()
 	ownSlots(t)
+	ownSlotMu.Lock()
 	idx := ownSlotIndex[t]
+	ownSlotMu.Unlock()
 	var out []ownKid
 	var recStruct func(v reflect.Value, path string, seen map[reflect.Type]int)
 	var slot func(v reflect.Value, path string, seen map[reflect.Type]int)
@@ -247,7 +253,6 @@ func restorePools(objs []pooledObj) {
 	}
 }
 
-var _ = sync.Pool{}
 
 // ---------------------------------------------------------------------------------------------
 // release-descent probe
